@@ -22,7 +22,7 @@ Definition TParamsSt (tps : list ty) : Prop :=
 Definition Pst (t : ty) : Prop :=
   Kst t /\
   match t with
-  | TElem _ _ _ _ x | TParam _ _ _ _ x | TAsserts _ _ x | TMProp _ _ x _ => Kst x
+  | TElem _ _ _ _ x | TParam _ _ _ _ x | TAsserts _ _ x | TMProp _ _ x _ | TInferC _ x => Kst x
   | TMMeth _ _ tps ps _ ret _ => TParamsSt tps /\ ParamsSt ps /\ RetSt ret
   | TTParam _ _ _ _ c d => Kst c /\ Kst d
   | TMIndex _ _ kt vt _ => Kst kt /\ Kst vt
